@@ -554,6 +554,33 @@ def c18_oracle(case):
     return None
 
 
+def subclass_scenarios(out):
+    """a user type written as a SUBCLASS of another user type (or of a shipped type), with relations of its own: its relations
+    are its own whether or not the parent's relations were read before (C12: any user-defined types written as classes; C10:
+    no dependence on earlier calls)"""
+    for read_parent_first in (False, True):
+        for style in ("class", "create_type"):
+            if style == "class":
+                A = type("SA", (VisionsBaseType,), {"get_relations": staticmethod(lambda: [IdentityRelation(Generic)]),
+                                                    "contains_op": staticmethod(lambda s_, st: all(isinstance(v, int) for v in s_))})
+            else:
+                A = create_type("SA", contains=lambda s_, st: all(isinstance(v, int) for v in s_), identity=Generic)
+            if read_parent_first:
+                _ = A.relations
+            B = type("SB", (A,), {"get_relations": staticmethod(lambda A=A: [IdentityRelation(A)]),
+                                  "contains_op": staticmethod(lambda s_, st: all(isinstance(v, int) and v > 0 for v in s_))})
+            rel = [(str(r.related_type), str(r.type)) for r in B.relations]
+            res = observe(lambda: VisionsTypeset({Generic, A, B}).detect([1, 2, 3]))
+            path = res.get("path") if isinstance(res, dict) else None
+            if rel != [("SA", "SB")] or path != ["Generic", "SA", "SB"]:
+                for prop, also in (("C12", ["C10"]),):
+                    out["oracle_failures"].append({"property": prop, "also": also, "signature": "subclass-relations",
+                                                   "what": "class SB(SA) declares IdentityRelation(SA)%s: SB.relations = %s, detect([1, 2, 3]) under {Generic, SA, SB} gives %s "
+                                                           "(expected SA->SB and the path Generic, SA, SB)"
+                                                           % (" after SA.relations had been read" if read_parent_first else "", rel, path or res),
+                                                   "system": {"style": style, "read_parent_first": read_parent_first}})
+
+
 def run(tier, seed):
     rng = rng_for(seed, "engine")
     nsys = 250 if tier == "quick" else 4000
@@ -564,6 +591,7 @@ def run(tier, seed):
             run_system(sysd, i, rng, tier, out)
         except RecursionError:
             out["skipped"] += 1
+    subclass_scenarios(out)
     resps = Driver().batch(out["requests"])
     dist = {"modes": {}, "errors": {}, "pathlen": {}, "kinds": {}, "styles": {}}
     nontrivial = set()
